@@ -3,7 +3,7 @@
 # (x y z): the change applies, both existing suites pass with it, the demo passes with AND without it.
 WT=$1; P=$2; cd $WT || exit 2
 export CARGO_NET_OFFLINE=true
-for k in x y z; do
+for k in ${KS:-x y z}; do
   D=$WT/SEEDED/$P$k
   [ -d $D ] || { echo "$P$k MISSING"; continue; }
   git checkout -q -- . ; rm -f tests/demo.rs
